@@ -2,7 +2,7 @@
 \* EXPECTED RESULT: TLC reports "Invariant AtMostOneSuccess is violated" with a 22-step behaviour:
 \* two activators both read the unactivated code, both create a mapping, both mark + update, both
 \* return success (kept as replays/C06/tlc-counterexamples-asis.json and reproduced on the real code).
-\*   tlc -workers 8 -config ConnCode_asis.cfg ConnCode.tla
+\*   tlc -workers 8 -config ConnCode_show_asis.cfg ConnCode.tla
 \* With MaxFault = 1 the shorter violation of FailedLeavesNone (list append fails, record stays) comes first.
 CONSTANTS
   Acts = {"a1", "a2"}
@@ -18,6 +18,8 @@ CONSTANTS
   SameAs = {}
   Reclaim = FALSE
   ResetOnFail = FALSE
+  ResetCreate = FALSE
+  RelScope = "fail"
   CanTick = FALSE
   ShortClaim = FALSE
   Emit = FALSE
